@@ -221,7 +221,7 @@ def read_tsv(path):
     return cases, dangling
 
 
-def go_stage(cfg, tier, seed, work, lines_file=None, only_lines=False, n_override=None):
+def go_stage(cfg, tier, seed, work, lines_file=None, only_lines=False, n_override=None, reuse=None):
     """Returns list of (run_index, input, impl_output) and a list of harness problems."""
     results, problems = [], []
     n_total = 0 if only_lines else (n_override if n_override is not None else cfg["n"][tier])
@@ -230,7 +230,13 @@ def go_stage(cfg, tier, seed, work, lines_file=None, only_lines=False, n_overrid
     for idx, run in enumerate(cfg["runs"]):
         if isinstance(lines_file, dict) and only_lines and idx not in lines_file:
             continue
-        ok, out, binp, pkgdir = build_harness(cfg, run, idx, work)
+        if reuse is not None and os.path.exists(os.path.join(work, f"harness_{reuse}.test")):
+            # shrinking: the binary of this check run is still valid, do not rebuild it per round
+            ok, out = True, ""
+            binp = os.path.join(work, f"harness_{reuse}.test")
+            pkgdir = os.path.normpath(os.path.join(REPO, run["pkg"]))
+        else:
+            ok, out, binp, pkgdir = build_harness(cfg, run, idx, work)
         if not ok:
             problems.append({"kind": "harness-build", "run": idx, "log": out[-6000:]})
             continue
@@ -373,7 +379,8 @@ def shrink(cfg, v, work, findings):
             f.write("\n".join(cands) + "\n")
         sub = dict(cfg, runs=[cfg["runs"][best["run"]]])
         try:
-            res, probs = go_stage(sub, "quick", 1, work, lines_file=lf, only_lines=True)
+            res, probs = go_stage(sub, "quick", 1, work, lines_file=lf, only_lines=True,
+                                  reuse=best["run"])
             outs = driver_stage(sub, res, work)
         except Exception:
             break
